@@ -210,43 +210,27 @@ Theorem capture_reports_bytes_written (h : list wevent) :
 Proof. exact (thm_capture_reports_bytes_written h). Qed.
 Print Assumptions capture_reports_bytes_written.
 
-(* status, closed forms over all histories of valid codes: the capture reports the
-   LAST code passed to WriteHeader (200 if only the body was written, 0 if nothing
-   was), the writer sent the status committed by the FIRST event *)
-Theorem capture_status_closed_form (h : list wevent) :
-  forallb valid_code h = true ->
-  cap_status (capture h) =
-    match last_wh h None with Some c => c | None => if has_write h then 200%Z else 0%Z end.
-Proof. exact (capture_status_closed h). Qed.
-Print Assumptions capture_status_closed_form.
+(* status and byte count: over ALL writer histories (any interleaving of
+   WriteHeader, Write and Flush, repeated and late WriteHeader calls included,
+   any sizes, any final status codes) the capture reports exactly what the writer
+   underneath sent: the status committed by the first event — the implicit 200
+   when that event is a Write or a Flush — "nothing" for the empty history, and
+   the bytes actually accepted *)
+Theorem capture_reports_written (h : list wevent) :
+  forallb final_code h = true ->
+  reported_status (capture h) = w_status (sent h) /\ cap_bytes (capture h) = w_bytes (sent h).
+Proof. exact (thm_capture_reports_written h). Qed.
+Print Assumptions capture_reports_written.
 
+(* the writer sent the status committed by the FIRST event, and so says the capture *)
 Theorem sent_status_closed_form (h : list wevent) : w_status (sent h) = first_commit h.
 Proof. exact (sent_status h). Qed.
 Print Assumptions sent_status_closed_form.
 
-(* "reports the status actually written" is FALSE over all histories: a second
-   WriteHeader (ignored by net/http) overwrites StatusCode; a WriteHeader after
-   the body was started does too; a Flush commits a 200 the capture never sees *)
-Theorem capture_reports_written_refuted :
-  (exists h, forallb valid_code h = true /\ reported_status (capture h) <> w_status (sent h) /\
-             h = [WriteHeader 201; WriteHeader 500]) /\
-  (exists h, forallb valid_code h = true /\ reported_status (capture h) <> w_status (sent h) /\
-             h = [Write 3; WriteHeader 404]) /\
-  (exists h, forallb valid_code h = true /\ reported_status (capture h) <> w_status (sent h) /\
-             h = [Flush]).
-Proof. exact thm_capture_reports_written_refuted. Qed.
-Print Assumptions capture_reports_written_refuted.
-
-(* ... and TRUE for every history in which the response is started by WriteHeader
-   or Write and WriteHeader is not called again (any number of writes and flushes
-   afterwards, any sizes, any valid code) — including the implicit 200 of a body
-   written without WriteHeader, and "nothing written" for the empty history *)
-Theorem capture_reports_written_partial (h : list wevent) :
-  forallb valid_code h = true -> disciplined h = true ->
-  reported_status (capture h) = w_status (sent h) /\
-  cap_bytes (capture h) = w_bytes (sent h).
-Proof. exact (thm_capture_reports_written_partial h). Qed.
-Print Assumptions capture_reports_written_partial.
+Theorem capture_status_closed_form (h : list wevent) :
+  forallb final_code h = true -> reported_status (capture h) = first_commit h.
+Proof. exact (thm_capture_status_closed_form h). Qed.
+Print Assumptions capture_status_closed_form.
 
 (* ---------------- non-vacuity ---------------- *)
 
@@ -270,5 +254,8 @@ Proof. vm_compute. reflexivity. Qed.
 Example capture_example :
   capture [Write 3; Flush; Write 4] = {| cap_status := 200; cap_bytes := 7 |} /\
   sent [Write 3; Flush; Write 4] = {| w_status := Some 200%Z; w_bytes := 7 |} /\
-  disciplined [Write 3; Flush; Write 4] = true.
+  cap_status (capture [WriteHeader 201; WriteHeader 500]) = 201%Z /\
+  cap_status (capture [Flush; WriteHeader 500]) = 200%Z /\
+  cap_status (capture [WriteHeader 103; WriteHeader 204]) = 204%Z /\
+  cap_status (capture []) = 0%Z.
 Proof. vm_compute. repeat split. Qed.
